@@ -1,6 +1,6 @@
 """C01 configuration for ./check (keys: see checks/propcfg.py)."""
 CFG = {
-    "modules": ["VaxisModel.Props.C01", "VaxisModel.Props.C01Display", "VaxisModel.Props.C01Clip", "VaxisModel.Props.C01Sixel", "VaxisModel.Props.C01SixelRest", "VaxisModel.Props.C01Cluster", "VaxisModel.Props.C01App", "VaxisModel.Props.C01AppCluster", "VaxisModel.Props.C01Ops", "VaxisModel.Witness.C11ShowCursor", "VaxisModel.Props.C01Facts", "VaxisModel.Props.C01Seq", "VaxisModel.Props.C01Link"],
+    "modules": ["VaxisModel.Props.C01", "VaxisModel.Props.C01Display", "VaxisModel.Props.C01Clip", "VaxisModel.Props.C01Sixel", "VaxisModel.Props.C01SixelRest", "VaxisModel.Props.C01Cluster", "VaxisModel.Props.C01App", "VaxisModel.Props.C01AppCluster", "VaxisModel.Props.C01Ops", "VaxisModel.Witness.C11ShowCursor", "VaxisModel.Props.C01Facts", "VaxisModel.Props.C01Seq", "VaxisModel.Props.C01Link", "VaxisModel.Props.C01Body"],
     "extractors": ["C07", "C04", "C18", "C11", "C01"],
     "drivers": ["C01", "C01Ops"],
     "stateful": True,
